@@ -12,6 +12,7 @@ CONSTANTS
   RecFinishRenameFirst = FALSE
   Async = FALSE
   RotateDropsBuffer = FALSE
+  RotateInflight = FALSE
 INVARIANTS CrashSafe ReadsLikeMap
 PROPERTIES StepProperty
 CHECK_DEADLOCK FALSE
